@@ -99,6 +99,19 @@ func checkC08(c *Ctx) {
 		}
 	}
 	// newline inside a string is not a delimiter (and is a control character)
+	// a line holding a long string (384..1300 bytes, with and without escapes) that ends within
+	// 64 bytes of the end of the line: first, in the middle, last (the padded-copy path of the
+	// string parser is only taken at the very end of the input), LF/CRLF, trailing blank lines
+	for n := 380; n <= 1300; n += 23 {
+		for _, body := range []string{strings.Repeat("s", n), strings.Repeat("s", n/2) + `\"q\\` + strings.Repeat("t", n/2)} {
+			long := `{"k":[1,"` + body + `"]}`
+			for _, eol := range []string{"\n", "\r\n"} {
+				add("long-string-line", []byte(long+eol+"[1]"+eol))
+				add("long-string-line", []byte("[1]"+eol+long))
+				add("long-string-line", []byte("{}"+eol+long+eol+"[2]"+eol+long+eol+eol))
+			}
+		}
+	}
 	// inputs on both sides of the 8 KiB threshold whose LAST line is the bad one — among them
 	// lines that leave a scope open or close one too many yet end in } or ] (stage 1's end check
 	// passes; only stage 2's bookkeeping at the end of the input can reject them)
